@@ -155,6 +155,9 @@ func runCtor(c CtorCase) kit.Result {
 func ctorGrid(yield func(CtorCase) bool) {
 	for _, tq := range []int{0, 1, 2, 3, 4, 5, 8, 64} {
 		for _, bl := range [][2]int{{0, 0}, {1, 1}, {1, 7}, {8, 3}, {4096, 7}} {
+			if tq >= 1 && tq <= 3 && (bl[0] == 1 && bl[1] == 7 || bl[0] == 8) {
+				continue // child-process cases: two Bloom shapes are enough
+			}
 			if !yield(CtorCase{TQSize: tq, BloomSize: bl[0], BloomHashes: bl[1]}) {
 				return
 			}
@@ -164,7 +167,7 @@ func ctorGrid(yield func(CtorCase) bool) {
 
 var ctorSpec = kit.Spec[CtorCase]{
 	Prop: "C02", Name: "ctor",
-	Rule: "exhaustive grid two-queue size {0,1,2,3,4,5,8,64} x Bloom {none, 1 byte/1 hash, 1/7, 8/3, 4096/7}: CachedBlockstore must return a clean error or a store that answers Has/Get/GetSize/Put/Delete correctly after the initial build; sizes 1-3 with a Bloom filter run in a child process. non-trivial = two-queue size 1..4",
+	Rule: "exhaustive grid two-queue size {0,1,2,3,4,5,8,64} x Bloom {none, 1 byte/1 hash, 1/7, 8/3, 4096/7} (sizes 1-3: {none, 1/1, 4096/7}): CachedBlockstore must return a clean error or a store that answers Has/Get/GetSize/Put/Delete correctly after the initial build; sizes 1-3 with a Bloom filter run in a child process. non-trivial = two-queue size 1..4",
 	Gen:  nil, Run: runCtor,
 }
 
